@@ -290,7 +290,7 @@ def run(res, tier, seed):
                                    'observed': o, 'case_key': 'C09|hdr|%s|%s' % (c['flag'], c['query'])})
     # which aN / a[N] variables the query text is found to use (Model/Translate.lean vs parse_basic_variables / parse_array_variables)
     import translate_corr
-    translate_corr.run_leg(res, tier, seed, {'vars', 'names'})
+    translate_corr.run_leg(res, tier, seed, {'vars', 'names', 'tablevars'})
 
 
 def replay(res, path):
